@@ -516,6 +516,10 @@ namespace msgpack {
                         binary::native_to_big(static_cast<uint32_t>(length),std::back_inserter(sink_));
                         sink_.push_back(static_cast<uint8_t>(raw_tag));
                     }
+                    else
+                    {
+                        JSONCONS_THROW(ser_error(msgpack_errc::too_many_items)); // no MessagePack ext header holds this length
+                    }
                     break;
             }
 
